@@ -215,7 +215,9 @@ def explore_history(acc, n, edges, depth):
         acc.nt_disjoint += 1
         acc.count("histories")
         acc.count("history_ops_" + ops[-1][0])
-        if res:
+        if res and res[0] == "initial":
+            acc.count("histories_with_wrong_initial_answer_left_to_the_plain_families")
+        elif res:
             acc.violation("rpo:after:%s" % res[0],
                           {"fam": "hist", "n": n, "edges": [list(e) for e in edges], "ops": [list(o) for o in ops]}, res[1])
 
